@@ -75,7 +75,14 @@ func c05Timeline(period int64) L1Builder {
 			}
 			pt.Idx = next
 			sc.reg(prop)
-			res := c.Do(sc.op(L1Op{Kind: "propose", Sender: prop, Bridge: b, Idx: next, L2: last + 1 + uint64(r.Intn(3)), Root: pt.Root}))
+			l2 := last + 1 + uint64(r.Intn(3))
+			if next == 1 && r.Chance(35) {
+				l2 = 0 // legal for the first output only
+			}
+			if next > 1 && r.Chance(12) { // an equal L2 block number (0 included) must be refused
+				c.Do(sc.op(L1Op{Kind: "propose", Sender: prop, Bridge: b, Idx: next, L2: last, Root: pt.Root}))
+			}
+			res := c.Do(sc.op(L1Op{Kind: "propose", Sender: prop, Bridge: b, Idx: next, L2: l2, Root: pt.Root}))
 			if !res.OK {
 				return nil
 			}
